@@ -40,6 +40,18 @@ static InCell gen_poly(int kind, int res, sim::Rng& r, double& true_volume, int 
     return c;
 }
 
+// closed-looking triangulated inputs that are NOT a 2-manifold sphere (only offered with triangulation disabled, one cell):
+// 1 two tetrahedra sharing one vertex, 2 two cubes sharing one edge (4 faces on it), 3 a sphere with one triangle missing, 4 a sphere with a fin on one edge
+static InCell bad_input(int kind, sim::Rng& r) {
+    InCell c; c.type = 0;
+    if (kind == 1) { TriMesh m; m.V = {V3(0,0,0), V3(1,0,0), V3(0,1,0), V3(0,0,1), V3(-1,0,0), V3(0,-1,0), V3(0,0,-1)}; m.F = {{0,2,1},{0,1,3},{1,2,3},{0,3,2},{0,4,5},{0,6,4},{4,6,5},{0,5,6}}; c.m = m; }
+    else if (kind == 2) { TriMesh a = cube_mesh(1), b = cube_mesh(1); double lo = 1e300, hi = -1e300; for (auto& p : a.V) { lo = std::min(lo, p.x); hi = std::max(hi, p.x); } V3 sh(hi - lo, hi - lo, 0); c.m = a; std::map<std::array<long, 3>, unsigned> idx; auto key = [&](const V3& p) { return std::array<long, 3>{std::lround(p.x * 1e6), std::lround(p.y * 1e6), std::lround(p.z * 1e6)}; };
+        for (unsigned i = 0; i < a.V.size(); i++) idx[key(a.V[i])] = i; std::vector<unsigned> map(b.V.size()); for (unsigned i = 0; i < b.V.size(); i++) { V3 q = b.V[i] + sh; auto it = idx.find(key(q)); if (it != idx.end()) map[i] = it->second; else { map[i] = (unsigned)c.m.V.size(); c.m.V.push_back(q); idx[key(q)] = map[i]; } } for (auto& f : b.F) c.m.F.push_back({map[f[0]], map[f[1]], map[f[2]]}); }
+    else if (kind == 3) { c.m = icosphere(1); c.m.F.erase(c.m.F.begin() + (long)r.below(c.m.F.size())); }
+    else { c.m = icosphere(1); auto f = c.m.F[r.below(c.m.F.size())]; unsigned nv = (unsigned)c.m.V.size(); c.m.V.push_back((c.m.V[f[0]] + c.m.V[f[1]]) * 0.8); c.m.F.push_back({f[1], f[0], nv}); }
+    return c;
+}
+
 RunResult run_w5(const Plan& pl) {
     RunResult res; sim::RunConfig cfg = config_from(pl); cfg.step_budget = 6000000000ull; sim::clear_faults(); sim::begin_run(cfg);
     Fnv log;
@@ -48,11 +60,15 @@ RunResult run_w5(const Plan& pl) {
         int n = pl.geti("ncells", 1); double size = pl.get("size", 5e-6), rho = pl.get("rho", 0.3), lmin = rho * size; bool tri_on = pl.geti("triangulate", 1) != 0; int mode = pl.geti("mode", 0);
         std::vector<InCell> in; std::vector<double> vol; std::vector<TriMesh> ref;
         for (int k = 0; k < n; k++) { double v; InCell c = gen_poly(pl.geti("c" + std::to_string(k) + "_poly", 0), pl.geti("c" + std::to_string(k) + "_res", 1), r, v, pl.geti("windings", 0)); M33 R = random_rotation(r); V3 t(3.0 * size * k + pl.get("off", 0), pl.get("off", 0) * 0.3, 0); for (auto& p : c.m.V) p = (R * p) * size + t; in.push_back(c); vol.push_back(v * size * size * size); ref.push_back(triangulated(c)); }
+        int bad = pl.geti("bad_input", 0);
+        if (bad) { InCell c = bad_input(bad, r); for (auto& p : c.m.V) p = p * size; in.assign(1, c); n = 1; res.probes.hit("bad_input_offered"); }
         std::string dir = g_scratch + "/w5"; mkdir(dir.c_str(), 0700); std::string vp = dir + "/in.vtk"; spit(vp, write_vtk(in, "%.12g"));
         auto types = make_types(pl); global_simulation_parameters P = make_params(pl, g_scratch + "/out5"); P.input_mesh_path_ = vp; P.min_edge_len_ = lmin; P.perform_initial_triangulation_ = tri_on;
         bool all_tri = true; for (auto& c : in) for (auto& f : c.polys) if (f.size() != 3) all_tri = false;
         // injected consecutive failures of the reconstruction (forces retries)
-        int nfail = pl.geti("inject_failures", 0); for (int i = 1; i <= nfail; i++) sim::add_fault({sim::PH_TRIANGULATE_SURFACE, (uint64_t)i, pl.geti("inject_type", sim::EX_INIT_TRI)});
+        // inject_point: 0 = inside the reconstruction (before the cell object exists), 1 = inside cell::initialize_cell_properties (after it was created), 2 = the first half here, the rest there
+        int nfail = pl.geti("inject_failures", 0), ipoint = pl.geti("inject_point", 0); if (!tri_on && ipoint != 1) ipoint = 1;
+        { int a = ipoint == 0 ? nfail : (ipoint == 1 ? 0 : nfail / 2); for (int i = 1; i <= a; i++) sim::add_fault({sim::PH_TRIANGULATE_SURFACE, (uint64_t)i, pl.geti("inject_type", sim::EX_INIT_TRI)}); for (int i = 1; i <= nfail - a; i++) sim::add_fault({sim::PH_INIT_CELL_PROPS, (uint64_t)i, pl.geti("inject_type", sim::EX_INIT_TRI)}); }
         std::vector<cell_ptr> cells; std::string outcome = "ok";
         try {
             if (mode == 0) { simulation_initializer si(P, types, false); cells = si.get_cell_lst(); }
@@ -68,7 +84,8 @@ RunResult run_w5(const Plan& pl) {
         if (mode == 0) {
             if (outcome.compare(0, 13, "std_exception") == 0) res.fail("C13", "failure_type", "initialisation failed with an exception other than the initialisation exception: " + outcome);
             if (tri_on && attempts > 10 * (uint64_t)n) res.fail("C13", "retry_bound", "more than 10 reconstruction attempts for one cell");
-            if (tri_on && nfail >= 10 && n == 1 && outcome == "ok") res.fail("C13", "retries_exhausted", "10 consecutive failed attempts did not end in an initialisation exception");
+            if (nfail >= 10 && n == 1 && outcome == "ok") res.fail("C13", "retries_exhausted", "10 consecutive failed attempts did not end in an initialisation exception");
+            if (nfail >= 10 && n == 1 && sim::stats().faults_fired >= 10) res.probes.hit(ipoint == 0 ? "ten_failures_before_cell_exists" : "ten_failures_some_after_cell_exists");
             if (!tri_on && !all_tri && outcome == "ok") res.fail("C13", "untriangulated_accepted", "a polygonal input was accepted although initial triangulation is disabled");
         }
         if (outcome == "ok") {
@@ -91,6 +108,7 @@ RunResult run_w5(const Plan& pl) {
                     // sample points lie on the input surface; hole-fill centres (mean of the hole's nodes) may sit up to 1.5 l_min off it
                     for (size_t i = 0; i < v.pos.size() && res.viol.empty(); i++) if (v.nused[i]) { double dd = dist_to_mesh(rv, v.pos[i]); bool ctr = dd > 0.05 * lmin && is_centre(i); if (ctr) res.probes.hit("hole_fill_centres"); if (dd > (ctr ? 1.5 : 0.05) * lmin) { std::ostringstream d; d << "a node of reconstructed cell " << k << " lies " << dd << " off the input surface (l_min " << lmin << (ctr ? ", hole-fill centre" : ", sample point") << ")"; res.fail("C13", "node_on_surface", d.str()); } }
                     for (size_t i = 0; i < v.pos.size() && res.viol.empty(); i++) if (v.nused[i]) for (size_t j = i + 1; j < v.pos.size(); j++) if (v.nused[j] && (v.pos[i] - v.pos[j]).norm() < lmin * (1 - 1e-9)) { if (is_centre(i) || is_centre(j)) { res.probes.hit("hole_fill_centre_close"); continue; } std::ostringstream d; d << "two sample points of cell " << k << " are " << (v.pos[i] - v.pos[j]).norm() << " apart (< l_min " << lmin << ")"; res.fail("C13", "poisson_distance", d.str()); break; }
+                } else if (!tri_on && bad) { res.probes.hit("bad_input_accepted_as_valid_cell");
                 } else if (!tri_on) {
                     if (v.tri.size() != ref[k].F.size() || relv > 1e-9) res.fail("C13", "same_surface", "with triangulation disabled the cell is not the input surface");
                 }
@@ -107,11 +125,13 @@ Plan gen_w5(uint64_t seed, const std::string& tier, const std::string& focus) {
     Plan pl; pl.workload = "w5"; pl.seed = seed; sim::Rng r(seed * 97 + 31337);
     bool thorough = tier == "thorough";
     static const double rhos[] = {0.1, 0.12, 0.15, 0.2, 0.25, 0.3, 0.35}; pl.p["rho"] = rhos[r.below(thorough ? 7 : 7)]; if (thorough && r.coin(0.2)) pl.p["rho"] = r.uni(0.08, 0.15);
-    pl.p["size"] = r.coin(0.7) ? 5e-6 : 1.0; pl.p["triangulate"] = r.coin(0.85); pl.p["mode"] = r.coin(0.7) ? 0 : 1; if (!pl.geti("triangulate")) pl.p["mode"] = 0;
+    pl.p["size"] = r.coin(0.7) ? 5e-6 : 1.0; pl.p["triangulate"] = r.coin(0.78); pl.p["mode"] = r.coin(0.7) ? 0 : 1; if (!pl.geti("triangulate")) pl.p["mode"] = 0;
     int n = r.coin(0.7) ? 1 : r.range(2, 3); pl.p["ncells"] = n; for (int k = 0; k < n; k++) { pl.p["c" + std::to_string(k) + "_poly"] = (int)r.below(6); pl.p["c" + std::to_string(k) + "_res"] = r.coin(0.7) ? 1 : 2; }
     if (r.coin(0.2)) pl.p["off"] = pl.p["size"] * std::pow(10.0, r.range(0, 2));
     { double u = r.uni(); pl.p["windings"] = u < 0.7 ? 0 : (u < 0.85 ? 1 : 2); }
     if (pl.geti("triangulate") && pl.geti("mode") == 0 && r.coin(0.3)) { pl.p["inject_failures"] = r.coin(0.3) ? 10 : r.range(1, 9); static const int ty[] = {sim::EX_INIT_TRI, sim::EX_BPA, sim::EX_MESH_INTEGRITY}; pl.p["inject_type"] = ty[r.below(3)]; if (pl.geti("inject_failures") == 10) pl.p["ncells"] = 1; }
+    if (pl.p.count("inject_failures")) pl.p["inject_point"] = (int)r.below(3);
+    if (!pl.geti("triangulate")) { double u = r.uni(); if (u < 0.35) { pl.p["bad_input"] = r.range(1, 4); pl.p["ncells"] = 1; } else if (u < 0.7) { pl.p["inject_failures"] = r.coin(0.4) ? 10 : r.range(1, 9); pl.p["inject_point"] = 1; static const int ty[] = {sim::EX_INIT_TRI, sim::EX_BPA, sim::EX_MESH_INTEGRITY}; pl.p["inject_type"] = ty[r.below(3)]; if (pl.geti("inject_failures") == 10) pl.p["ncells"] = 1; pl.p["windings"] = 0; } }
     pl.p["clock"] = 1 + (int)r.below(2); draw_schedule(pl, r, 8);   // retries need a clock that advances (the sampling seed)
     return pl;
 }
